@@ -58,6 +58,14 @@ def gen_case(rng, name):
         w[0] += 1.0
     if sum(w) == 0:
         w[0] += 1.0
+    if name not in ("PushNegatives", "AddValueToZero") and rng.random() < 0.2:
+        # another unit of measurement: one criterion (or all) on a tiny scale; a power of two, so exact data stay exact
+        cols = range(m) if rng.random() < 0.4 else [rng.randrange(m)]
+        k = rng.choice([2.0 ** -30, 2.0 ** -40, 2.0 ** -27])
+        for j in cols:
+            for i in range(n):
+                mtx[i][j] *= k
+        mode = mode + "+tiny_unit"
     return {"matrix": mtx, "weights": w, "objectives": gen.objectives(rng, m),
             "alternatives": gen.labels(rng, n, gen.LABEL_POOL_A, "A"),
             "criteria": gen.labels(rng, m, gen.LABEL_POOL_C, "C"), "tf": cfg, "mode": mode}
